@@ -67,6 +67,10 @@ type Func struct {
 	Variadic bool
 	Err      bool // has an error result (last, unless ErrAt says otherwise)
 	ErrAt    int  // 1-based output position of the error result; 0 = last
+	// LocPC: name of a declared pool function whose entry pc is passed to
+	// dig.LocationForPC when this function is provided (the location dig
+	// reports is then that function's; its identity must not change).
+	LocPC string
 
 	OptName  string   // dig.Name
 	OptGroup string   // dig.Group (may carry ",flatten")
